@@ -1,1 +1,4 @@
 -- all property modules (built by setup.sh)
+import GoNeat.Props.C06
+import GoNeat.Props.C07
+import GoNeat.Props.C07Exact
